@@ -18,6 +18,10 @@ cd $WT || exit 2
 git checkout -q -- src 2>/dev/null; rm -f tests/seeded_demo.rs
 res() { echo "$1" >> $OUT/eval.log; echo "$1"; }
 : > $OUT/eval.log
+if [ -n "${SKIP_WT:-}" ] && [ -f $OUT/wt.env ]; then
+  # (worktree part done earlier by a PHASE=wt run, possibly in parallel with others)
+  . $OUT/wt.env; res "demo_passes_without_change=$D0"; res "demo_fails_with_change=$D1"; res "existing_tests_pass=$T"
+else
 git apply --check $SRC/patch.diff 2>>$OUT/eval.log || { res "patch does not apply"; exit 1; }
 # demo without the change
 cp $SRC/demo.rs tests/seeded_demo.rs
@@ -27,6 +31,9 @@ if cargo test --offline --features in_memory,tokio,rayon,futures --test seeded_d
 rm -f tests/seeded_demo.rs
 if cargo test --offline >/dev/null 2>&1; then res "existing_tests_pass=true"; T=true; else res "existing_tests_pass=false"; T=false; fi
 git checkout -q -- src
+echo "D0=$D0; D1=$D1; T=$T" > $OUT/wt.env
+fi
+[ "${PHASE:-}" = wt ] && exit 0
 # against /repo with our checks
 cd /verif
 # (the evidence files are rewritten by every run: keep the ones of the unchanged tree)
